@@ -1013,7 +1013,7 @@ fn exec_intrinsic(m: &mut Machine, i: &il::Intrinsic, seed: u64, event: u64) -> 
         }
     }
     m.events += 1;
-    m.last_effect = None;
+    m.last_effect = Some(Effect::Intrinsic { text: i.instruction_str().to_string(), wrote: wrote.clone() });
     m.loc = m.fallthrough()?;
     Ok(wrote)
 }
@@ -1116,19 +1116,30 @@ fn run_pair(orig: &FnView, r: &Runnable, state: &RefState, seed: u64, info: &Ori
                     (ea, eb)
                 }
             }
-            Loc::Edge(h, _) => {
-                for (ea, eb) in orig.out_edges(h).iter().zip(r.view.out_edges(h).iter()) {
-                    if let (Some(ca), Some(cb)) = (&ea.cond, &eb.cond) {
-                        let (mut va, mut vb) = (Vec::new(), Vec::new());
-                        expr_scalars(ca, &mut va);
-                        expr_scalars(cb, &mut vb);
-                        compare_reads(&format!("the guard `{}` of edge {}->{}", ca, ea.head, ea.tail), "guard", va, vb, &a, &b)?;
-                    }
-                }
-                (a.step(), b.step())
-            }
-            Loc::Empty(_) => (a.step(), b.step()),
+            Loc::Edge(..) | Loc::Empty(_) => (a.step(), b.step()),
         };
+        // the end of a block was reached: its guards have just been evaluated (both sides got
+        // past the instruction itself); compare what they read before looking at the outcome, so
+        // that a stale guard operand is reported as such and not as the path it leads to
+        let block_end = match loc {
+            Loc::Instr(bk, idx) => orig.blocks.get(&bk).and_then(|v| v.last()).map(|i| i.index) == Some(idx),
+            Loc::Empty(_) => true,
+            Loc::Edge(..) => false,
+        };
+        if block_end && (ra.is_ok() || a.last_effect.is_some()) && (rb.is_ok() || b.last_effect.is_some()) {
+            let h = match loc {
+                Loc::Instr(bk, _) | Loc::Empty(bk) => bk,
+                Loc::Edge(h, _) => h,
+            };
+            for (ea, eb) in orig.out_edges(h).iter().zip(r.view.out_edges(h).iter()) {
+                if let (Some(ca), Some(cb)) = (&ea.cond, &eb.cond) {
+                    let (mut va, mut vb) = (Vec::new(), Vec::new());
+                    expr_scalars(ca, &mut va);
+                    expr_scalars(cb, &mut vb);
+                    compare_reads(&format!("the guard `{}` of edge {}->{}", ca, ea.head, ea.tail), "guard", va, vb, &a, &b)?;
+                }
+            }
+        }
         match (&ra, &rb) {
             (Ok(ea), Ok(eb)) => {
                 let eb = demangle_effect(eb);
